@@ -85,10 +85,10 @@ func buildASN1(v reflect.Value, j any) {
 func kdViewOf(kd *android.KeyDescription) M {
 	p := []any{}
 	for _, x := range kd.TeeEnforced.Purpose {
-		p = append(p, strconv.Itoa(x))
+		p = append(p, strconv.Itoa(int(x)))
 	}
 	return M{"challenge": hx(kd.AttestationChallenge), "swAll": bool(kd.SoftwareEnforced.AllApplications), "teeAll": bool(kd.TeeEnforced.AllApplications),
-		"teeOrigin": strconv.Itoa(kd.TeeEnforced.Origin), "teePurpose": p}
+		"teeOrigin": strconv.Itoa(int(kd.TeeEnforced.Origin)), "teePurpose": p}
 }
 
 func init() {
